@@ -127,6 +127,10 @@ func (t tlsIdentifierResolver) Resolve(id did.DID) (string, error) {
 }
 
 func (t tlsIdentifierResolver) resolveFromCertificate(id did.DID) (string, error) {
+	if t.config == nil || len(t.config.Certificates) == 0 || t.config.Certificates[0].Leaf == nil {
+		// TLS is disabled (or no certificate is loaded): there is no certificate to derive the identifier from
+		return "", nil
+	}
 	// Construct candidate URLs from TLS certificate SANs
 	var candidateURLs []string
 	// Support legacy TLS certificates with host name in Subject.CommonName as well
